@@ -101,7 +101,22 @@ pub fn body_classes() -> Vec<(&'static str, Vec<u8>)> {
         ("trailing-garbage-error", br#"{"error":"invalid_grant"}]"#.to_vec()),
         ("trailing-whitespace", b"{\"access_token\":\"AT\",\"token_type\":\"bearer\"}\r\n \t".to_vec()),
         ("nul-bytes", b"\0\0\0".to_vec()),
+        // error documents with codes of OTHER specifications (RFC 6750, RFC 7009, RFC 8628, OIDC): never a success
+        ("error-invalid-token", br#"{"error":"invalid_token"}"#.to_vec()),
+        ("error-insufficient-scope", br#"{"error":"insufficient_scope","error_description":"d"}"#.to_vec()),
+        ("error-server", br#"{"error":"server_error"}"#.to_vec()),
+        ("error-temporarily", br#"{"error":"temporarily_unavailable"}"#.to_vec()),
+        ("error-login-required", br#"{"error":"login_required"}"#.to_vec()),
+        ("error-vendor-members", br#"{"error":"invalid_grant","message":"m","error_message":"x","description":"y","code":400}"#.to_vec()),
     ]
+}
+
+/// larger than any "keep only the first N bytes" shortcut would keep: an unterminated document of 1 MiB + 17 bytes.
+/// Not part of `body_classes()` (the product tables would multiply it); op `resp` draws it rarely.
+pub fn huge_body() -> Vec<u8> {
+    let mut v = br#"{"access_token":""#.to_vec();
+    v.extend(std::iter::repeat(b'a').take(1 << 20));
+    v
 }
 
 #[derive(PartialEq, Debug)]
@@ -149,7 +164,9 @@ impl CaseInput for RespCase {
 
     fn generate(r: &mut Rng, _idx: u64) -> Self {
         let classes = body_classes();
-        let (bc, body) = if r.chance(1, 12) {
+        let (bc, body) = if r.chance(1, 2500) {
+            ("huge-unparsable", huge_body())
+        } else if r.chance(1, 12) {
             ("random", gen::hostile_s(r).into_bytes())
         } else {
             let (n, b) = r.pick(&classes).clone();
